@@ -1082,8 +1082,26 @@ VARIANTS += [
          edits=[dict(file=NS, find="                .and_then(<[_]>::first);", replace="                .and_then(|chain| chain.first());")]),
 ]
 
+VARIANTS += [
+    dict(prop="C19", name="reshard-closes-channels-on-input-error", expect=["PAIR-close", "only-after-clean-end-of-input"],
+         edits=[dict(file="ipa-core/src/protocol/context/mod.rs", find='                if let Some(val) = input.try_next().await? {\n                    if usize::try_from(*i).unwrap() >= input_len {', replace='                let next = input.try_next().await;\n                if !matches!(next, Ok(Some(_))) {\n                    for (last_record, send_channel) in send_channels.values() {\n                        send_channel.close(*last_record).await;\n                    }\n                }\n                if let Some(val) = next? {\n                    if usize::try_from(*i).unwrap() >= input_len {'), dict(file="ipa-core/src/protocol/context/mod.rs", find='                } else {\n                    for (last_record, send_channel) in send_channels.values() {\n                        send_channel.close(*last_record).await;\n                    }\n                    Ok(None)\n                }', replace='                } else {\n                    Ok(None)\n                }')]),
+    dict(prop="C19", name="reshard-closes-before-matching-none", benign=True,
+         edits=[dict(file="ipa-core/src/protocol/context/mod.rs", find='                if let Some(val) = input.try_next().await? {\n                    if usize::try_from(*i).unwrap() >= input_len {', replace='                let next = input.try_next().await?;\n                if next.is_none() {\n                    for (last_record, send_channel) in send_channels.values() {\n                        send_channel.close(*last_record).await;\n                    }\n                }\n                if let Some(val) = next {\n                    if usize::try_from(*i).unwrap() >= input_len {'), dict(file="ipa-core/src/protocol/context/mod.rs", find='                } else {\n                    for (last_record, send_channel) in send_channels.values() {\n                        send_channel.close(*last_record).await;\n                    }\n                    Ok(None)\n                }', replace='                } else {\n                    Ok(None)\n                }')]),
+    dict(prop="C19", name="reshard-closes-on-out-of-range-error", expect=["PAIR-close", "only-after-clean-end-of-input"],
+         edits=[dict(file="ipa-core/src/protocol/context/mod.rs", find='                    if usize::try_from(*i).unwrap() >= input_len {\n                        return Err(crate::error::Error::RecordIdOutOfRange {', replace='                    if usize::try_from(*i).unwrap() >= input_len {\n                        for (last_record, send_channel) in send_channels.values() {\n                            send_channel.close(*last_record).await;\n                        }\n                        return Err(crate::error::Error::RecordIdOutOfRange {')]),
+]
+
+VARIANTS += [
+    dict(prop="C19", name="peer-shards-only-higher", expect=['WRAP', 'peer_shards'],
+         edits=[dict(file="ipa-core/src/sharding.rs", find='        max.iter().filter(move |&v| v != this)', replace='        max.iter().filter(move |&v| v > this)')]),
+    dict(prop="C19", name="peer-shards-filter-by-ref", benign=True,
+         edits=[dict(file="ipa-core/src/sharding.rs", find='        max.iter().filter(move |&v| v != this)', replace='        max.iter().filter(move |v| *v != this)')]),
+    dict(prop="C19", name="shard-index-iter-from-one", expect=['WRAP', 'peer_shards'],
+         edits=[dict(file="ipa-core/src/sharding.rs", find='        (0..self.0).map(Self)', replace='        (1..self.0).map(Self)')]),
+]
+
 # rules shared between properties: the same edit must be reported under the other property too
 VARIANTS += [dict(v, prop="C05", name=v["name"] + "@C05") for v in VARIANTS
-             if v["name"] in ("h1-shuffle-empty-shard-leaves", "sharded-shuffle-empty-shard-leaves")]
+             if v["name"] in ("h1-shuffle-empty-shard-leaves", "sharded-shuffle-empty-shard-leaves", "reshard-closes-channels-on-input-error", "reshard-closes-before-matching-none")]
 VARIANTS += [dict(v, prop="C13", name=v["name"] + "@C13") for v in VARIANTS
              if v["name"] in ("overflow-refreshes-last-entry", "overflow-drain-skipped-when-slot-empty", "overflow-drain-every-step")]
